@@ -343,7 +343,7 @@ func simulate(t *rapid.T, rec *ev.Rec, finality, forkChoice bool) {
 				}
 				s.nodes[x] = nn
 				nn.Enter()
-				nn.DPoS.VerifForceLoad()
+				// no block has arrived yet: what the node reports (and enforces) now is what it restored at start
 				gotNo, gotID := nn.DPoS.VerifLIB()
 				s.restarts++
 				s.hist = append(s.hist, fmt.Sprintf("s%d:restart(n%d)", j, x))
